@@ -24,6 +24,8 @@ import GocoinV.Proofs.C02DelSig
 import GocoinV.Proofs.C02Tail
 import GocoinV.Proofs.C02Decode
 import GocoinV.Proofs.C02Life
+import GocoinV.Model.SigHashCaller
+import GocoinV.Proofs.C02Caller
 namespace GocoinV.Props.C02
 open GocoinV GocoinV.SigHash
 open GocoinV.Wire (Tx TxIn TxOut)
@@ -295,6 +297,59 @@ theorem pool_partial_reset_counterexample (H : Bytes → Bytes)
   simp [lifeTxA, lifeTxB]
   exact he.1
 
+/-! ### the object in the hands of its caller: `Spent_outputs` filled one by one, workers asking for digests -/
+
+/-- The caller's side of "whatever the order of calls". `commitTxs` makes `tx.Spent_outputs` with one nil entry per
+    input, resolves the inputs one after the other (`store`) and lets a worker per input ask for digests (`req`,
+    atomic under hashLock). For every transaction with one spent output per input, every hash function and EVERY
+    interleaving of stores and requests in which each request is safe at the moment it runs — a legacy or BIP143
+    request at any time (they do not read `Spent_outputs`), a taproot request with SIGHASH_ANYONECANPAY once its own
+    input is stored, any other taproot request only after ALL inputs are stored (BIP341 commits to every spent amount
+    and script) — each request returns what a fresh object holding all spent outputs returns (and so, by
+    `bip341_preimage_eq` etc., the specified digest). -/
+theorem caller_requests_sound (H : Bytes → Bytes) (tx : Tx) (spent : List TxOut) (hs : tx.ins.length ≤ spent.length)
+    (evs : List CEv) (hd : disciplined spent.length 0 evs = true) :
+    runCaller H tx spent {} evs = callerSpec H tx spent evs :=
+  runCaller_disciplined H tx spent hs evs {} (Cache.OK_empty H tx spent) hd
+
+/-- … in particular the code as written: the workers are started after the collecting loop, so whatever the requests
+    and whatever order the scheduler runs them in, every one of them sees all spent outputs. -/
+theorem collect_then_verify_sound (H : Bytes → Bytes) (tx : Tx) (spent : List TxOut) (hs : tx.ins.length ≤ spent.length)
+    (ks : List Call) :
+    runCaller H tx spent {} (collectThenVerify spent.length ks)
+      = callerSpec H tx spent (collectThenVerify spent.length ks) :=
+  caller_requests_sound H tx spent hs _ (disciplined_stores spent.length ks spent.length 0 (by omega))
+
+def callerTx : Tx :=
+  { version := 2, lockTime := 0, witness := none,
+    ins := [{ prevHash := List.replicate 32 1, prevIdx := 0, scriptSig := [], sequence := 0xffffffff },
+            { prevHash := List.replicate 32 1, prevIdx := 1, scriptSig := [], sequence := 0xffffffff }],
+    outs := [{ value := 1000, pkScript := [0x51] }] }
+def callerSpent : List TxOut := [{ value := 5000, pkScript := [0x51] }, { value := 6000, pkScript := [0x52] }]
+/-- input 0 resolved, its worker (key path, SIGHASH_DEFAULT) runs, input 1 resolved, its worker runs -/
+def earlyEvs : List CEv := [.store, .req (.tap {} 0 0 false), .store, .req (.tap {} 1 0 false)]
+
+/-- The discipline cannot be dropped: a worker that is started as soon as ITS input is resolved asks for a taproot
+    digest while a later entry of `Spent_outputs` is still nil. The request panics (key path: outside the
+    interpreter's recover, the node dies) — and because `tx.tapSingleHashes` is published before it is filled, the
+    worker of the LAST input, which runs when everything is stored, is handed a digest over all-zero
+    sha_amounts / sha_scriptpubkeys / sha_sequences: a valid signature no longer verifies. For every hash function
+    with 32-byte values that does not map the amounts to 32 zero bytes. (The harness drives whole blocks through the
+    real `Chain.ProcessBlockTransactions`, go/cmd/c02/node.go, and such histories sequentially against the real
+    digest functions, go/cmd/c02/caller.go.) -/
+theorem early_worker_counterexample (H : Bytes → Bytes) (hlen : ∀ b, (H b).length = 32)
+    (h : H (callerSpent.flatMap fun o => le64 o.value) ≠ zero32) :
+    (runCaller H callerTx callerSpent {} earlyEvs)[1]? = some (some .panic) ∧
+    (runCaller H callerTx callerSpent {} earlyEvs)[3]? ≠ (callerSpec H callerTx callerSpent earlyEvs)[3]? := by
+  constructor
+  · simp [runCaller, callerStep, earlyEvs, step, taprootSigHash, tapSingleGet, tapSingleFill, callerTx, callerSpent]
+  · intro he
+    apply h
+    simp [runCaller, callerSpec, callerStep, earlyEvs, step, taprootSigHash, tapSingleGet, tapSingleFill, taprootTail,
+      lazyGet, callerTx, callerSpent] at he
+    simp only [callerSpent, List.flatMap_cons, List.flatMap_nil, List.append_nil]
+    exact ((List.append_inj he.1 (by simp [zero32, hlen])).1).symm
+
 /-! ### non-vacuity -/
 
 /-- a transaction with two inputs and one output used by the examples -/
@@ -337,5 +392,14 @@ example : ∃ p d, (runLifeSpec (fun b => b) lifeObjs [false, false] lifeEvs).ge
   ⟨_, _, rfl⟩
 -- pool_partial_reset_counterexample: its hypothesis holds for the identity "hash"
 example : (fun b : Bytes => b) (outputsBytes lifeTxA) ≠ (fun b : Bytes => b) (outputsBytes lifeTxB) := by decide
+
+-- caller_requests_sound: a history with EARLY requests that is disciplined (BIP143 and an ANYONECANPAY taproot request
+-- for the stored input before the second store), and `earlyEvs` is not
+example : callerTx.ins.length ≤ callerSpent.length := by decide
+example : disciplined 2 0 [.store, .req (.wit [0xac] 5000 0 1), .req (.tap {} 0 0x81 false), .store, .req (.tap {} 1 0 false)] = true := by decide
+example : disciplined 2 0 earlyEvs = false := by decide
+-- early_worker_counterexample: its hypotheses hold for a constant 32-byte "hash"
+example : ∃ H : Bytes → Bytes, (∀ b, (H b).length = 32) ∧ H (callerSpent.flatMap fun o => le64 o.value) ≠ zero32 :=
+  ⟨fun _ => List.replicate 32 1, by simp, by decide⟩
 
 end GocoinV.Props.C02
